@@ -261,6 +261,21 @@ fn on_pending(w: &mut World, o: &ExecOpts, started: u64) -> Pend {
                     }
                 }
             }
+            // C10: while a keep-alive is in force a wait for inbound data always has a deadline
+            // (next PINGREQ or PINGRESP timeout); without one a peer that falls silent - e.g.
+            // in the middle of a packet - is never noticed and no PINGREQ is ever sent
+            if blocked == Blocked::ReadNoData && wake.is_none() && matches!(w.op_label, "poll" | "recv") {
+                if let Some(k) = crate::broker::keepalive_eff(w, cur) {
+                    if k > 0 && w.conns[cur].connack_consumed {
+                        let inside = w.conns[cur].rx_hold;
+                        w.violate(
+                            "C10",
+                            format!("waits-without-keepalive-deadline/op={}/inbound-packet-half-received={}", w.op_label, inside),
+                            format!("{} waits for inbound data with no timer armed although a keep-alive of {k} s is in force", w.op_label),
+                        );
+                    }
+                }
+            }
             let next_ev = w.next_event_time();
             if o.cancellable && !w.benign && { let p = w.cfg.p_cancel; w.s_chance(p, 1000) } {
                 w.fault("cancel_at_read_or_timer");
@@ -980,6 +995,7 @@ pub fn do_publish(conn: &mut Conn<'_, '_>, spec: &PubSpec) -> Res {
         std_opts(w, c)
     });
     let mut handle = None;
+    let cap_before = [conn.can_publish(QoS::AtMostOnce), conn.can_publish(QoS::AtLeastOnce), conn.can_publish(QoS::ExactlyOnce)];
     let res = {
         let fails = spec.payload_fails;
         let payload = &spec.payload[..];
@@ -1020,6 +1036,27 @@ pub fn do_publish(conn: &mut Conn<'_, '_>, spec: &PubSpec) -> Res {
             Some(Err(PubError::Session(e))) => map_err(e),
         }
     };
+    // A publish that is refused locally leaves nothing behind: what the session accepts next is
+    // what it accepted before (publish() never reads, so no acknowledgement can have changed it).
+    if matches!(res, Res::InvalidRequest | Res::NotReady | Res::PacketTooLarge | Res::BufferTooSmall | Res::Payload | Res::InflightExhausted) && was_live && conn.is_connected() {
+        let cap_after = [conn.can_publish(QoS::AtMostOnce), conn.can_publish(QoS::AtLeastOnce), conn.can_publish(QoS::ExactlyOnce)];
+        if cap_after != cap_before {
+            let prop = match res {
+                Res::InvalidRequest => "C19",
+                Res::NotReady | Res::InflightExhausted => "C06",
+                Res::PacketTooLarge => "C14",
+                _ => "C17",
+            };
+            with(|w| {
+                w.probe("refused_publish_capacity_compared");
+                w.violate(
+                    prop,
+                    format!("refused-publish-changed-capacity/{}", res.name()),
+                    format!("can_publish(QoS 0/1/2) was {:?} before and is {:?} after a publish that was refused with {}", cap_before, cap_after, res.name()),
+                )
+            });
+        }
+    }
     with(|w| {
         check_result(w, "publish", &res, was_live, io_err_before);
         settle_req(w, ri, &res, handle);
